@@ -160,9 +160,16 @@ impl Base {
     fn lib_mode(&self, mode: Mode) -> Seipdv1ReadMode {
         match mode {
             Mode::Default => Seipdv1ReadMode::default(),
-            Mode::CheckFirstExact => Seipdv1ReadMode::CheckFirst {
-                max_message_size: self.body.len().saturating_sub(1),
-            },
+            Mode::CheckFirstExact => {
+                // the limit counts the octets behind the CFB prefix: data + MDC of the untampered message
+                let prefix = match self.cfg {
+                    Cfg::V1 { alg } => SymmetricKeyAlgorithm::from(alg).block_size() + 2,
+                    Cfg::V2 { .. } => 0,
+                };
+                Seipdv1ReadMode::CheckFirst {
+                    max_message_size: self.body.len().saturating_sub(1 + prefix),
+                }
+            }
             Mode::Streaming => Seipdv1ReadMode::Streaming,
         }
     }
